@@ -176,6 +176,37 @@ Proof.
     rewrite assoc_app, Hacc. cbn [assoc]. rewrite String.eqb_sym, Ea. reflexivity.
 Qed.
 
+(* ---- MetadataStore.metadata: with distinct source names the store holds exactly the configured documents, in
+   configuration order *)
+Lemma upd_fresh {A} k (v : A) : forall l, ~ In k (map fst l) -> upd k v l = (l ++ [(k, v)])%list.
+Proof.
+  induction l as [|[k' v'] l IH]; intros Hn; [reflexivity|].
+  cbn [upd]. destruct (String.eqb k k') eqn:E.
+  - apply String.eqb_eq in E. exfalso. apply Hn. left. cbn. congruence.
+  - cbn [app]. f_equal. apply IH. intros Hin. apply Hn. right. exact Hin.
+Qed.
+
+Lemma fold_upd_distinct {A} : forall (cfg d : list (string * A)),
+  NoDup (map fst d ++ map fst cfg)%list ->
+  fold_left (fun d kv => upd (fst kv) (snd kv) d) cfg d = (d ++ cfg)%list.
+Proof.
+  induction cfg as [|[k v] cfg IH]; intros d Hn; [cbn; rewrite app_nil_r; reflexivity|].
+  cbn [fold_left fst snd]. rewrite upd_fresh.
+  - rewrite IH; [rewrite <- app_assoc; reflexivity|].
+    rewrite map_app. cbn [map fst]. rewrite <- app_assoc. exact Hn.
+  - cbn [map fst] in Hn. apply NoDup_remove_2 in Hn. intros Hin. apply Hn. apply in_or_app. left. exact Hin.
+Qed.
+
+Lemma store_load_distinct (cfg : mdconfig) : NoDup (map fst cfg) -> store_load cfg = cfg_docs cfg.
+Proof. intros Hn. unfold store_load. rewrite (fold_upd_distinct cfg []); [reflexivity|exact Hn]. Qed.
+
+(* ... and a name configured twice holds the document read last, at the place of the first (dict assignment) *)
+Example store_load_same_name :
+  store_load [("a.xml", [{| fe_eid := "urn:1"; fe_sp := []; fe_idp := [] |}]); ("b.xml", []);
+              ("a.xml", [{| fe_eid := "urn:2"; fe_sp := []; fe_idp := [] |}])]
+  = [[{| fe_eid := "urn:2"; fe_sp := []; fe_idp := [] |}]; []].
+Proof. reflexivity. Qed.
+
 Section Fed.
   Variable sha1 : string -> string.
   Hypothesis sha1_len : forall e, String.length (sha1 e) = 20.
@@ -402,6 +433,30 @@ Section Fed.
     - destruct Hg as [[H1 H3] Hr]. split; [|apply IH; exact Hr].
       apply (artfed_holds {| f_fed := cur; f_eid := eid; f_idx := idx; f_role := ro |} h H1 H3).
   Qed.
+
+  (* ---- several resolvers, named sources (strengthening round 6) *)
+  Fixpoint mseq_guard (st : list (nat * federation)) (ops : list mop) : Prop :=
+    match ops with
+    | [] => True
+    | MLoad rcv cfg :: r => NoDup (map fst cfg) /\ mseq_guard ((rcv, cfg_docs cfg) :: st) r
+    | MResolve rcv eid _ idx ro :: r => res_guard (fed_of st rcv) eid idx ro /\ mseq_guard st r
+    end.
+
+  Lemma artfed_mseq_holds : forall ops st, mseq_guard st ops -> mseq_spec st ops (run_multi sha1 st ops).
+  Proof.
+    induction ops as [|op ops IH]; intros st Hg; [exact I|].
+    destruct op as [rcv cfg|rcv eid h idx ro]; cbn [mseq_guard run_multi mseq_spec] in *.
+    - destruct Hg as [Hn Hr]. rewrite (store_load_distinct cfg Hn). apply IH. exact Hr.
+    - destruct Hg as [[H1 H3] Hr]. split; [|apply IH; exact Hr].
+      apply (artfed_holds {| f_fed := fed_of st rcv; f_eid := eid; f_idx := idx; f_role := ro |} h H1 H3).
+  Qed.
+
+  (* the SourceID table of a resolver is a function of the DOCUMENTS it has loaded, not of what the sources are called:
+     two configurations with the same documents under different (distinct) names give the same table *)
+  Lemma source_names_irrelevant (cfg cfg' : mdconfig) :
+    NoDup (map fst cfg) -> NoDup (map fst cfg') -> map snd cfg = map snd cfg' ->
+    store (store_load cfg) = store (store_load cfg').
+  Proof. intros H1 H2 E. rewrite (store_load_distinct _ H1), (store_load_distinct _ H2). unfold cfg_docs. rewrite E. reflexivity. Qed.
 
   (* ---- finding class 6 (repaired by fbf0c2eb): the metadata spells index 1 as "01" (a legal xs:unsignedShort); with
      the text comparison the artifact created with index 1 found no endpoint, although the issuer publishes exactly
